@@ -570,7 +570,7 @@ func (ex *Executor) evalIndex(e *SExpr, env *SpecEnv) (Val, error) {
 	switch bt := base.Ty.Underlying().(type) {
 	case *types.Slice:
 		srt := sortOf(bt.Elem())
-		earr := env.heapArr(elemName(srt), arrayOf(arrayOf(srt)))
+		earr := env.heapArr(elemNameT(bt.Elem()), arrayOf(arrayOf(srt)))
 		t := Select(Select(earr, ex.sarr(base.T)), Add(ex.soff(base.T), idx.T))
 		return ex.recover(Val{T: t, Ty: bt.Elem()}), nil
 	case *types.Map:
@@ -750,12 +750,23 @@ func (ex *Executor) evalCallSpec(e *SExpr, env *SpecEnv) (Val, error) {
 			return Val{}, err
 		}
 		return specBool(Select(Select(env.heapArr("M.dom", SAAIB), m.T), k.T)), nil
+	case "mapget":
+		// value stored under key k (Int-sorted values: pointers, slices, strings, numbers)
+		m, err := argv(0)
+		if err != nil {
+			return Val{}, err
+		}
+		k, err := argv(1)
+		if err != nil {
+			return Val{}, err
+		}
+		return specInt(Select(Select(env.heapArr("M.val.Int", SAAII), m.T), k.T)), nil
 	case "content":
 		a, err := argv(0)
 		if err != nil {
 			return Val{}, err
 		}
-		earr := env.heapArr(elemName(SInt), SAAII)
+		earr := env.heapArr("E.Int.u8", SAAII)
 		return specInt(App("slicecontent", SInt, Select(earr, ex.sarr(a.T)), ex.soff(a.T), ex.slen(a.T))), nil
 	case "cancelled":
 		return specBool(Bool(env.st.cancelled)), nil
@@ -886,7 +897,7 @@ func (ex *Executor) evalLoc(e *SExpr, env *SpecEnv) (string, *Term, Sort, error)
 		if sl, ok := base.Ty.Underlying().(*types.Slice); ok {
 			// whole backing array of the slice
 			srt := sortOf(sl.Elem())
-			return elemName(srt), ex.sarr(base.T), arrayOf(srt), nil
+			return elemNameT(sl.Elem()), ex.sarr(base.T), arrayOf(srt), nil
 		}
 	}
 	return "", nil, "", fmt.Errorf("unsupported modifies location %s", e)
